@@ -116,6 +116,23 @@ PLANS = {
         ],
         trusted_base=['pyvc (this repository)', 'z3 5.1'],
     ),
+    'C20': dict(
+        models=['models.imperative'], specs=['spec.imp'], contracts=['contracts.imperative'],
+        targets=['imperative.expr.Var.subst', 'imperative.expr.ArrayElt.subst', 'imperative.expr.Field.subst',
+                 'imperative.expr.Const.subst', 'imperative.expr.Op.subst', 'imperative.expr.Fun.subst',
+                 'imperative.expr.ITE.subst', 'lemma:no_forall_nth', 'lemma:idents_nth'],
+        bounded=['bounded.c20_programs.run'], level='proof', uf_mul=True, native_per_fn={'quick': 0, 'thorough': 0},
+        assumptions=COMMON_ASSUMPTIONS + [
+            "deductive part: the semantic substitution lemma (evaluating e.subst(inst) in a state = evaluating e in "
+            "the state updated by the assignment) for every override of Expr.subst except Forall, for syntactically "
+            "well-typed expressions whose array identifiers are not assigned; semantics = spec/imp.py (evi/evb)",
+            "Forall expressions are excluded (Forall.subst captures; convert_hol does not support them)",
+            "program-level soundness of compute_wp / get_vcs against execution and the print/parse agreement of "
+            "conditions are covered ONLY by the bounded stand-in bounded/c20_programs.py",
+            "the HOL side (imp.eval_Sem, vcg over library/hoare.json) is not covered",
+        ],
+        trusted_base=['pyvc (this repository)', 'z3 5.1'],
+    ),
     'C03': dict(
         specs=KERNEL_SPECS, contracts=KERNEL_CONTRACTS, targets=TERM_TARGETS, level='proof',
         custom=['models.holpy.id_inj_frame'],
